@@ -396,6 +396,11 @@ pub fn gen_graph(p: &GraphParams, rng: &mut Rng) -> GraphSpec {
                 }
             }
         }
+        // a file called like the root in a directory called like the root's: `w/w/root.scss` is what
+        // `w/root.scss` would be taken for if it were named relative to the wrong directory
+        if i >= 1 && rootdir.is_empty() && !css_leaf && rng.chance(1, 14) && !paths.contains(&"w/w/root.scss".to_string()) {
+            path = "w/w/root.scss".to_string();
+        }
         paths.push(path);
     }
     let mut extra_dirs = vec![];
